@@ -12,7 +12,7 @@ NAMES_OF = {"owner": ["a.x", "t"], "owner-csum": ["c", "top"]}
 
 def world():
     return World(
-        "owner", {"src": ["0", "1"], "hand": ["H"]},
+        "owner", {"src": ["0", "1"], "hand": ["H"], "hd/k": ["K"]},
         {"default.x.do": [S(deps=["src"])], "t.do": [S(deps=["src"], out="file")], "all.do": [S(deps=["a.x", "t", "b.x"])]},
         ["all", "a.x", "t"], ["all", "a.x", "t"],
         # b.x is the user's: a symbolic link to a hand-maintained file, under a name the default rule matches
@@ -80,7 +80,9 @@ def step_check(proj, i, obs):
 
 def alphabet(w, h):
     ops = [["ifchange", ["a.x"]], ["ifchange", ["t"]], ["ifchange", ["all"]], ["redo", ["a.x"]], ["redo", ["t"]],
-           ["ifchange", ["b.x"]], ["redo", ["b.x"]]]
+           ["ifchange", ["b.x"]], ["redo", ["b.x"]],
+           # z.x: a name the default rule matches and nothing depends on; the user may make it a link to their directory hd
+           ["ifchange", ["z.x"]], ["redo", ["z.x"]], ["ulinkdir", "z.x", "hd"], ["rm", "z.x"]]
     cur = e1prop.cur_values(w, h)
     ops.append(["edit", "src", "1" if cur["src"] == "0" else "0"])
     for n in NAMES:
